@@ -6,6 +6,8 @@ mod c10;
 mod c16;
 mod canvas;
 mod c13;
+mod c12;
+mod c02;
 mod c15;
 mod c18;
 mod session;
@@ -21,6 +23,8 @@ fn dispatch(prop: &str, case: &str) -> String {
         "C10" => c10::run(case),
         "C16" => c16::run(case),
         "C13" => c13::run(case),
+        "C12" => c12::run(case),
+        "C02" => c02::run(case),
         "C15" => c15::run(case),
         "C18" => c18::run(case),
         _ => "error:unknown-property".into(),
